@@ -30,6 +30,7 @@ RULE = ('Layouts: flat files (.dat/.bin/.raw/.mda, header offset 0/1/7/16) for E
 RULE += " Added classes: slice bounds and integers given as NumPy scalars of every integer dtype (int16/uint16/int64/uint64); flat readers constructed from relative paths and read after a chdir into a directory holding same-named decoy files; every k-th returned block is overwritten in place by the caller before the next read (results must be the caller's own)."
 RULE += ' Round 5: part files reached through symbolic links; recordings of 2000-3000 rows with index arrays of >= 1024 entries covering the first / last row of every file; a second selector on top of the lazy channel selection, reader[:, c1][rows, c2].'
 RULE += ' Round 6: recordings of 12 x 3 and 40 x 2 rows with every pair of rows as an index list; up to 60 results per layout held by the caller and re-compared after all later reads; part files ending in an incomplete row.'
+RULE += ' Round 7: parts with equal base names in different folders; parts with different valid extensions; a 70-file recording with a header.'
 EXHAUSTIVE = {'quick': True, 'thorough': True}
 EXHAUSTIVE_SCOPE = {'quick': 'n <= 6, all compositions; dtype/channel/offset axes rotate (not crossed)',
                     'thorough': 'n <= 9, all compositions x all dtypes; random larger layouts sampled'}
